@@ -156,6 +156,9 @@ func (l *Ledger) OnApply(ev chaingen.ApplyEvent) {
 				cur = *latest
 			}
 			if cur.MissedHostValue.Cmp(cur.HostOutput.Value) > 0 {
+				if h >= l.Net.HardforkV2.EphemeralOutputHeight {
+					l.R.Violate(l.Prop+"/v2-contract-accepted-with-missed-host-value-above-host-value/under-current-rules", fmt.Sprintf("at height %d a v2 contract (revision) with missed host value %v above its host value %v was accepted: its expiration would pay more than is locked", h, bigC(cur.MissedHostValue), bigC(cur.HostOutput.Value)), wit)
+				}
 				if l.legacyMissed == nil {
 					l.legacyMissed = map[types.FileContractID]bool{}
 				}
@@ -362,4 +365,16 @@ func (l *Ledger) CompareStore(st *chaingen.Store, when string) {
 		l.R.Violate(l.Prop+"/store-vs-ledger/v2-contracts/"+when, fmt.Sprintf("store: %v locked in v2 contracts, ledger %v", v2, l.LockedV2), nil)
 	}
 	l.R.Count("store_vs_ledger_comparisons", 1)
+}
+
+// Clone copies the ledger (for judging a hypothetical block without disturbing the main ledger).
+func (l *Ledger) Clone() *Ledger {
+	c := *l
+	c.Unspent, c.LockedV1, c.LockedV2, c.ClaimsPaid, c.Forfeited, c.Issued = cp(l.Unspent), cp(l.LockedV1), cp(l.LockedV2), cp(l.ClaimsPaid), cp(l.Forfeited), cp(l.Issued)
+	c.snaps = nil
+	c.legacyMissed = map[types.FileContractID]bool{}
+	for k, v := range l.legacyMissed {
+		c.legacyMissed[k] = v
+	}
+	return &c
 }
